@@ -42,7 +42,7 @@ type C13Case struct {
 
 const c13Outputs = "cpp:\n  sourcesOutputDir: ../out/cpp\n  generateHDF5: true\npython:\n  outputDir: ../out/py\nmatlab:\n  outputDir: ../out/m\njson:\n  outputDir: ../out/json\n"
 
-const c13Rule = "one generated model IR emitted twice: mode syntax = plain spelling vs a spelling with a random choice at every decision point (shorthand/expanded per type node, primitive alias names, quoting style, flow/block, !generic, [null, T], dimension syntaxes, hex enum values) plus noise comments and blank lines; mode layout = random permutation of definitions and random redistribution over 1-4 files; 1 in 5 cases carries an injected rule violation (both spellings must be rejected). oracle: same exit status; syntax => all generated files byte-identical (model.json compared without source positions); layout => schema literal of every protocol identical in C++, Python and MATLAB output, and the generated Python package imports for one ordering iff it does for the other; one case in eight (mode layout-wire) draws the model from the run-time generator with value sequences, generates both layouts and requires the generated Python code of both to copy the same reference-encoded streams to byte-identical binary and NDJSON output. non-trivial = the two texts differ in at least 3 lines and the model has a union, an array or a generic; distinct = hash of both texts"
+const c13Rule = "one generated model IR emitted twice: mode syntax = plain spelling vs a spelling with a random choice at every decision point (shorthand/expanded per type node, primitive alias names, quoting style, flow/block, !generic, [null, T], dimension syntaxes, hex enum values) plus noise comments and blank lines, in a quarter of the cases with the definitions of a file spread over several YAML documents; mode layout = random permutation of definitions and random redistribution over 1-4 files; 1 in 5 cases carries an injected rule violation (both spellings must be rejected). oracle: same exit status; syntax => all generated files byte-identical (model.json compared without source positions); layout => schema literal of every protocol identical in C++, Python and MATLAB output, and the generated Python package imports for one ordering iff it does for the other; one case in eight (mode layout-wire) draws the model from the run-time generator with value sequences, generates both layouts and requires the generated Python code of both to copy the same reference-encoded streams to byte-identical binary and NDJSON output. non-trivial = the two texts differ in at least 3 lines and the model has a union, an array or a generic; distinct = hash of both texts"
 
 func noise(t *rapid.T, files model.Files) model.Files {
 	out := model.Files{}
@@ -186,6 +186,18 @@ func genC13(t *rapid.T) C13Case {
 	case "syntax":
 		c.B = model.EmitLayout(root, model.EmitOptions{ExtraManifest: c13Outputs, Ch: rapidChooser(t)})
 		c.B["main"] = noise(t, c.B["main"])
+		if rapid.IntRange(0, 3).Draw(t, "multiDoc") == 0 {
+			// the definitions of a file spread over several YAML documents
+			mask := rapid.Uint64().Draw(t, "multiDocCuts") | rapid.Uint64().Draw(t, "multiDocCuts2")
+			out := model.Files{}
+			for n, txt := range c.B["main"] {
+				if n != "_package.yml" {
+					txt = model.SplitDocuments(txt, func(i int) bool { return mask&(1<<uint(i%64)) != 0 })
+				}
+				out[n] = txt
+			}
+			c.B["main"] = out
+		}
 	case "layout":
 		n := len(root.Defs)
 		order := rapid.Permutation(seq(n)).Draw(t, "order")
